@@ -529,6 +529,11 @@ def bScale (alpha : R) (ac : Bool) (b : BOpV R) : BOpV R := ⟨b.dom, b.ran, b.d
 def kScale (alpha : R) (ac : Bool) (k : BlkV R) : BlkV R :=
   ⟨k.doms, k.rans, k.duals, none, k.wf.map (dScale alpha ac)⟩
 
+/-- is the result of `scalar ∘ scalar` a NumPy scalar?  `np.float64` is a subclass of Python's `float`, so
+`complex.__add__(np.float64)` succeeds and returns a Python `complex`; in every other mixed case NumPy's (reflected)
+operator runs. -/
+def scNp (c1 n1 c2 n2 : Bool) : Bool := if c1 && !n1 && !c2 && n2 then false else n1 || n2
+
 /-- unary minus -/
 def negV : Obj R → Except Err (Obj R)
   | .scalar c np v => .ok (.scalar c np ((-1) * v))
@@ -543,7 +548,7 @@ def negV : Obj R → Except Err (Obj R)
 def addV (p : Pool R) : Obj R → Obj R → Except Err (Obj R)
   | .arr _ _, _ => .error .scope
   | _, .arr _ _ => .error .scope
-  | .scalar c1 n1 v1, .scalar c2 n2 v2 => .ok (.scalar (c1 || c2) (n1 || n2) (v1 + v2))
+  | .scalar c1 n1 v1, .scalar c2 n2 v2 => .ok (.scalar (c1 || c2) (scNp c1 n1 c2 n2) (v1 + v2))
   | .scalar _ np _, .gfl _ => if np then .error .scope else .error .type
   | .scalar _ _ _, _ => .error .type
   | .bop a, .bop b =>
@@ -582,7 +587,7 @@ def addV (p : Pool R) : Obj R → Obj R → Except Err (Obj R)
 def subV (p : Pool R) : Obj R → Obj R → Except Err (Obj R)
   | .arr _ _, _ => .error .scope
   | _, .arr _ _ => .error .scope
-  | .scalar c1 n1 v1, .scalar c2 n2 v2 => .ok (.scalar (c1 || c2) (n1 || n2) (v1 + (-1) * v2))
+  | .scalar c1 n1 v1, .scalar c2 n2 v2 => .ok (.scalar (c1 || c2) (scNp c1 n1 c2 n2) (v1 + (-1) * v2))
   | .scalar _ np _, .gfl _ => if np then .error .scope else .error .type
   | .scalar _ _ _, _ => .error .type
   | .gf a, .gf b => if a.space = b.space then (gfAdd p a (gfScale (-1) false b)).map .gf else .error .value
@@ -596,7 +601,7 @@ def subV (p : Pool R) : Obj R → Obj R → Except Err (Obj R)
 
 /-- scalar times object (`alpha * y` and `y * alpha`) -/
 def scaleV (c np : Bool) (v : R) : Obj R → Except Err (Obj R)
-  | .scalar c2 n2 v2 => .ok (.scalar (c || c2) (np || n2) (v * v2))
+  | .scalar c2 n2 v2 => .ok (.scalar (c || c2) (scNp c np c2 n2) (v * v2))
   | .bop b => .ok (.bop (bScale v c b))
   | .gf g => .ok (.gf (gfScale v c g))
   | .pot q => .ok (.pot ⟨q.space, q.ncomp, q.pts, .scaled q.t v c⟩)
@@ -851,7 +856,7 @@ def negT : Ty → Except Err Ty
 def addT (p : Pool R) : Ty → Ty → Except Err Ty
   | .arr _, _ => .error .scope
   | _, .arr _ => .error .scope
-  | .scalar c1 n1, .scalar c2 n2 => .ok (.scalar (c1 || c2) (n1 || n2))
+  | .scalar c1 n1, .scalar c2 n2 => .ok (.scalar (c1 || c2) (scNp c1 n1 c2 n2))
   | .scalar _ np, .gfl _ => if np then .error .scope else .error .type
   | .scalar _ _, _ => .error .type
   | .bop d1 r1 u1 w1, .bop d2 r2 u2 w2 =>
@@ -885,7 +890,7 @@ def addT (p : Pool R) : Ty → Ty → Except Err Ty
 def subT (p : Pool R) : Ty → Ty → Except Err Ty
   | .arr _, _ => .error .scope
   | _, .arr _ => .error .scope
-  | .scalar c1 n1, .scalar c2 n2 => .ok (.scalar (c1 || c2) (n1 || n2))
+  | .scalar c1 n1, .scalar c2 n2 => .ok (.scalar (c1 || c2) (scNp c1 n1 c2 n2))
   | .scalar _ np, .gfl _ => if np then .error .scope else .error .type
   | .scalar _ _, _ => .error .type
   | .gf s1 d1 c1, .gf s2 d2 c2 => if s1 = s2 then gfAddT p s1 d1 c1 d2 c2 else .error .value
@@ -898,7 +903,7 @@ def subT (p : Pool R) : Ty → Ty → Except Err Ty
     addT p x ny
 
 def scaleT (c np : Bool) : Ty → Except Err Ty
-  | .scalar c2 n2 => .ok (.scalar (c || c2) (np || n2))
+  | .scalar c2 n2 => .ok (.scalar (c || c2) (scNp c np c2 n2))
   | .bop a b u wf => .ok (.bop a b u (wf.map (dScaleT c)))
   | .gf s d c2 => .ok (.gf s d (c2 || c))
   | .pot s n q c2 => .ok (.pot s n q (c2 || c))
